@@ -245,6 +245,10 @@ type c29Case struct {
 	Schemas []schemaSpec `json:"-"`
 	Seed    []lx.Op      `json:"seed,omitempty"` // applied in audit mode while building the start state
 	Ops     []lx.Op      `json:"ops"`
+	// Carrier: "" = the write is sent to the ledger controller directly; "tx" = inside a
+	// transaction-scoped controller (BeginTX ... Commit/Rollback), which is how an atomic bulk
+	// and the first write on a freshly imported ledger run it
+	Carrier string `json:"carrier,omitempty"`
 }
 
 func (c c29Case) replay() map[string]any {
@@ -252,7 +256,7 @@ func (c c29Case) replay() map[string]any {
 	for _, s := range c.Schemas {
 		ss = append(ss, map[string]any{"version": s.Version, "data": json.RawMessage(s.DataJSON())})
 	}
-	return map[string]any{"group": c.Group, "mode": c.Mode, "schemas": ss, "seed": c.Seed, "ops": c.Ops}
+	return map[string]any{"group": c.Group, "mode": c.Mode, "schemas": ss, "seed": c.Seed, "ops": c.Ops, "carrier": c.Carrier}
 }
 
 type c29 struct {
@@ -340,7 +344,23 @@ func (c *c29) run(ctx context.Context, start *pgsim.DB, seedRef func() *refState
 		labels = append(labels, opLabel(op))
 		v := ref.decide(cs.Mode == "strict", op)
 		before := dump(pg)
-		out := safeApply(ctx, ctrl, op)
+		var out lx.Outcome
+		if cs.Carrier == "tx" {
+			tc, _, err := ctrl.BeginTX(ctx, nil)
+			if err != nil {
+				c.r.EngineError(fmt.Sprintf("%v: BeginTX: %v", labels, err))
+				return
+			}
+			out = safeApply(ctx, tc, op)
+			if out.Err != nil {
+				_ = tc.Rollback(ctx)
+			} else if err := tc.Commit(ctx); err != nil {
+				c.r.EngineError(fmt.Sprintf("%v: Commit: %v", labels, err))
+				return
+			}
+		} else {
+			out = safeApply(ctx, ctrl, op)
+		}
 		if out.Class == "ENGINE" || strings.HasPrefix(fmt.Sprint(out.Err), "harness:") {
 			c.r.EngineError(fmt.Sprintf("%v: %v", labels, out.Err))
 			return
@@ -489,6 +509,10 @@ func runC29() int {
 								}
 							}
 							sc.cases = append(sc.cases, c29Case{Group: "single-write/" + ch.Name, Mode: mode, Schemas: sc.schemas, Ops: []lx.Op{op}})
+							if len(l.Postings) == 1 {
+								// the same write inside a transaction-scoped controller
+								sc.cases = append(sc.cases, c29Case{Group: "single-write-in-tx/" + ch.Name, Mode: mode, Schemas: sc.schemas, Ops: []lx.Op{op}, Carrier: "tx"})
+							}
 						}
 					}
 				}
@@ -654,7 +678,7 @@ func runC29() int {
 		"samples":             c.samples.List(),
 		"exhaustive":          complete,
 		"rule": "evaluation = one write applied through the real system controller (strict or audit enforcement) on a clone of a pgsim start state holding two schema versions, with the property's verdict derived from the reference chart matcher; " +
-			"single-write group: 5 charts (pattern+defaults, .self with non-account variable, fixed and variable siblings, patternless variable with .self and child, fixed pure-branch child next to a variable account) x {templates defined, not} x every postings list [world->X] and [world->X, X->Y] over 10 accounts (accepted / rejected / partially accepted by the chart) x {strict, audit} x {latest version, older version, no version, unknown version} x {plain postings, template}; " +
+			"single-write group: 5 charts (pattern+defaults, .self with non-account variable, fixed and variable siblings, patternless variable with .self and child, fixed pure-branch child next to a variable account) x {templates defined, not} x every postings list [world->X] and [world->X, X->Y] over 10 accounts (accepted / rejected / partially accepted by the chart) x {strict, audit} x {latest version, older version, no version, unknown version} x {plain postings, template}, and every one-posting write of that product again inside a transaction-scoped controller (BeginTX … Commit: the carrier of an atomic bulk and of the first write after an import); " +
 			"other-writes group: account/transaction metadata set and delete, revert x mode x version; default-metadata group: every sequence of length<=depth over 21 operations (create by metadata / by transaction, explicit value on a default key, transaction-level account metadata, delete, account outside the chart; each under v1, v2 with different defaults, and without version) in both modes; " +
 			"after every write: rejected => database dump unchanged, accepted/rejected as the property requires, metadata of every account equals the reference (defaults of the named version's chart at first creation only, explicit values win, nothing overwritten later). distinct_nontrivial = writes whose expected verdict depends on a schema rule (not plain valid writes)",
 		"default_metadata_sequence_depth": ev.Pick(r, 2, 3),
